@@ -222,6 +222,77 @@ class Repo:
                     work.append((tgt, d + 1))
         return order
 
+    # ---------------------------------------------------------- closed-world gate
+    HIGHER_ORDER = {'map', 'filter', 'functools.partial', 'partial', 'functools.reduce', 'reduce', 'operator.attrgetter', 'attrgetter',
+                    'operator.itemgetter', 'itemgetter', 'operator.methodcaller', 'methodcaller', 'itertools.takewhile', 'takewhile',
+                    'itertools.dropwhile', 'dropwhile', 'itertools.chain', 'chain', 'itertools.count', 'itertools.islice', 'islice',
+                    'itertools.starmap', 'starmap', 'itertools.accumulate', 'itertools.zip_longest', 'iter', 'next'}
+
+    def opaque_features(self, fi, with_compile=True):
+        """constructs of a function whose control / data flow the analysis does not resolve:
+        higher-order library calls, calls through containers or computed attribute names,
+        function tables.  A rule that does not find what it expects in such a function has not
+        seen everything the function does."""
+        key = ('opaque', fi.id, with_compile)
+        if key in self._mro_cache:
+            return self._mro_cache[key]
+        out = []
+        tables = self._function_tables(fi.module)
+        for n in ast.walk(fi.node):
+            if isinstance(n, ast.Call):
+                nm = call_name(n) or ''
+                f = n.func
+                if nm in self.HIGHER_ORDER:
+                    out.append('higher-order call %s(...)' % nm)
+                if isinstance(f, ast.Subscript):
+                    out.append('call through a container: %s(...)' % canon(f)[:50])
+                if isinstance(f, ast.Call) and (call_name(f) or '') == 'getattr' and len(f.args) >= 2 and not isinstance(f.args[1], ast.Constant):
+                    out.append('call of a computed attribute: %s(...)' % canon(f)[:50])
+                if isinstance(f, ast.Call) and (call_name(f) or '') in self.HIGHER_ORDER:
+                    out.append('call of the result of %s' % call_name(f))
+            elif isinstance(n, (ast.Name, ast.Attribute)) and isinstance(getattr(n, 'ctx', None), ast.Load):
+                t = n.id if isinstance(n, ast.Name) else (n.attr if isinstance(n.value, ast.Name) and n.value.id in ('self', 'cls') or (fi.cls is not None and isinstance(n.value, ast.Name) and n.value.id == fi.cls.name) else None)
+                if t in tables:
+                    out.append('function table %s' % t)
+            elif isinstance(n, ast.While) and isinstance(n.test, ast.Constant) and n.test.value is True:
+                pass
+        out = sorted(set(out))
+        if with_compile and fi.cls is not None and fi.node.name != '_compile':
+            comp = self.method(fi.cls, '_compile')
+            if comp is not None and comp.cls is fi.cls:
+                out.extend('%s (in %s)' % (x, comp.qual) for x in self.opaque_features(comp, False))
+        self._mro_cache[key] = out
+        return out
+
+    def _function_tables(self, module):
+        """names of module- or class-level displays that hold lambdas, functions or method names"""
+        key = ('ftables', module)
+        if key in self._mro_cache:
+            return self._mro_cache[key]
+        names = set()
+        funcs = {n for (m, n) in self.module_funcs if m == module}
+        def scan(body, methods):
+            for s_ in body:
+                if isinstance(s_, ast.Assign) and len(s_.targets) == 1 and isinstance(s_.targets[0], ast.Name) and isinstance(s_.value, (ast.Dict, ast.Tuple, ast.List)):
+                    holds = False
+                    for x in ast.walk(s_.value):
+                        if isinstance(x, ast.Lambda):
+                            holds = True
+                        elif isinstance(x, ast.Name) and isinstance(x.ctx, ast.Load) and (x.id in funcs or x.id in methods):
+                            holds = True
+                        elif isinstance(x, ast.Constant) and isinstance(x.value, str) and x.value in methods and x.value.startswith('_'):
+                            holds = True
+                    if holds:
+                        names.add(s_.targets[0].id)
+                elif isinstance(s_, ast.ClassDef):
+                    scan(s_.body, {m.name for m in s_.body if isinstance(m, ast.FunctionDef)})
+        scan(self.modules[module]['tree'].body, set())
+        self._mro_cache[key] = names
+        return names
+
+    def func_by_where(self, file, qual):
+        return self.functions.get('%s::%s' % (file, qual))
+
     def instance_attrs(self, ci):
         """names assigned as ``self.<name> = ...`` by any method of the class or its bases"""
         key = ('ia', ci.qual)
